@@ -20,7 +20,9 @@ func NewIndividualNameAndSex(individual *gedcom.IndividualNode) *IndividualNameA
 }
 
 func (c *IndividualNameAndSex) WriteHTMLTo(w io.Writer) (int64, error) {
-	primaryName := c.individual.Names()[0]
+	// The individual may not have a name. All of the parts of a name that does
+	// not exist are empty.
+	primaryName := c.individual.Name()
 	title := primaryName.Title()
 	prefix := primaryName.Prefix()
 	name := primaryName.GivenName()
